@@ -13,4 +13,10 @@ CHECKS["C01"] = {
   "note": "exact reals; sklearn validators stubbed; CUR family: svds/eigsh/eigh are uninterpreted functions with unit-norm / zero-line contract (validated against the real routines on every replay), obligations assume decomposed matrices nonzero and positive pick scores; two recorded genuine findings (exhausted candidates re-selected; threshold-stop truncation pinned by an existing test)",
   "technique": TECH,
 }
+CHECKS["C11"] = {
+  "text": "StandardFlexibleScaler.fit/transform/inverse_transform are executed on fully symbolic matrices for all 8 flag combinations, unweighted and with a symbolic non-negative weight vector; the solver decides on every path: weighted mean zero, weighted (per-column / total) variance one, inverse round trip on new symbolic data, StandardScaler formula, integer weights == repeated rows, shift and rescaling invariance, and that a fit is rejected exactly when the independently computed variance is below atol+|mean|*rtol (division by a zero scale is an event that must be unreachable). Bounded: n<=4, m<=3.",
+  "design_ref": "DESIGN.md 2/C11",
+  "note": "exact reals; sklearn validators stubbed by aliasing contract; atol>0; symbolic weights parametrised with fixed total (1 or 3)",
+  "technique": TECH,
+}
 NOT_APPLICABLE = {}
